@@ -1482,15 +1482,15 @@ theorem renameSafe_spec (old new : Path) (t : M) (hc : Coherent t) : KeepsMeta t
   · exact KeepsMeta.refl hc
   · exact renamePath_spec old new t hc
 
-theorem unflattenLoopM_spec (sep : Char) (ks : List String) (t : M) (hc : Coherent t) :
+theorem unflattenLoopM_spec (sep : String) (ks : List String) (t : M) (hc : Coherent t) :
     KeepsMeta t (unflattenLoopM sep ks t).1 := by
   induction ks generalizing t with
   | nil => exact KeepsMeta.refl hc
   | cons k r ih =>
     simp only [unflattenLoopM]
     split
-    · have h1 := renameSafe_spec [k] (C04.splitKey sep k) t hc
-      cases hr : renameSafe [k] (C04.splitKey sep k) t with
+    · have h1 := renameSafe_spec [k] (C04.splitKeyS sep k) t hc
+      cases hr : renameSafe [k] (C04.splitKeyS sep k) t with
       | mk t' o =>
         rw [hr] at h1
         cases o with
@@ -1498,10 +1498,14 @@ theorem unflattenLoopM_spec (sep : Char) (ks : List String) (t : M) (hc : Cohere
         | ok => exact h1.trans (ih t' h1.2.2)
     · exact ih t hc
 
-theorem unflattenM_spec (sep : Char) (t : M) (hc : Coherent t) : KeepsMeta t (unflattenM sep t).1 := by
+theorem unflattenM_spec (sep : String) (t : M) (hc : Coherent t) : KeepsMeta t (unflattenM sep t).1 := by
   cases t with
   | leaf s d => exact KeepsMeta.refl hc
-  | node bs dv ns kids => exact unflattenLoopM_spec sep _ _ hc
+  | node bs dv ns kids =>
+    simp only [unflattenM]
+    split
+    · exact KeepsMeta.refl hc
+    · exact unflattenLoopM_spec sep _ _ hc
 
 
 
@@ -1606,6 +1610,84 @@ theorem updateTdM_spec (m t : M) (hc : Coherent t) (hm : Coherent m) : KeepsMeta
       split
       · exact KeepsMeta.refl hc
       · exact updateTdK_spec vsub _ hc hm.kid_coh
+
+
+/-! ### writes into existing storage -/
+
+theorem coherentK_sound (bs : Shape) (dv : Option Nat) (kids : Kids) (h : coherentK bs dv kids = true) :
+    ∀ k c, (k, c) ∈ kids → fits bs dv c ∧ Coherent c := by
+  fun_induction coherentK bs dv kids
+  · simp
+  · rename_i bs dv k s d r ih
+    simp only [Bool.and_eq_true, Bool.or_eq_true] at h
+    obtain ⟨⟨h1, h2⟩, h3⟩ := h
+    intro k' c hm
+    simp only [List.mem_cons, Prod.mk.injEq] at hm
+    rcases hm with ⟨_, rfl⟩ | hm
+    · refine ⟨⟨h1, fun d' hd' => ?_⟩, Coherent.leaf _ _⟩
+      subst hd'
+      rcases h2 with h2 | h2
+      · simp at h2
+      · simp at h2; simp [M.onDev, h2]
+    · exact ih h3 k' c hm
+  · rename_i bs dv k cbs cdv cns sub r ih2 ih1
+    simp only [Bool.and_eq_true, Bool.or_eq_true] at h
+    obtain ⟨⟨⟨⟨h1, h2⟩, h3⟩, h4⟩, h5⟩ := h
+    intro k' c hm
+    simp only [List.mem_cons, Prod.mk.injEq] at hm
+    rcases hm with ⟨_, rfl⟩ | hm
+    · have hsub := ih2 h4
+      refine ⟨⟨h1, fun d' hd' => ?_⟩, Coherent.node _ _ _ _ ?_ (fun k c h => (hsub k c h).1) (fun k c h => (hsub k c h).2)⟩
+      · subst hd'
+        rcases h2 with h2 | h2
+        · simp at h2
+        · simp at h2; simp [M.onDev, h2]
+      · intro l hl; subst hl; simpa using h3
+    · exact ih1 h5 k' c hm
+
+theorem growsK_sound (an : Bool) (bs : Shape) (dv : Option Nat) (kids kids' : Kids) (h : growsK an bs dv kids kids' = true)
+    (hf : ∀ k c, (k, c) ∈ kids → fits bs dv c) (hc : ∀ k c, (k, c) ∈ kids → Coherent c) :
+    ∀ k c, (k, c) ∈ kids' → fits bs dv c ∧ Coherent c := by
+  fun_induction growsK an bs dv kids kids'
+  · rename_i bs dv new
+    simp only [Bool.and_eq_true] at h
+    exact coherentK_sound bs dv new h.2
+  · rename_i bs dv k s d r k' s' d' r' ih
+    simp only [Bool.and_eq_true, beq_iff_eq] at h
+    obtain ⟨⟨⟨rfl, rfl⟩, rfl⟩, h4⟩ := h
+    intro k2 c hm
+    simp only [List.mem_cons, Prod.mk.injEq] at hm
+    rcases hm with ⟨_, rfl⟩ | hm
+    · exact ⟨hf k _ (by simp), Coherent.leaf _ _⟩
+    · exact ih h4 (fun k c h => hf k c (List.mem_cons_of_mem _ h)) (fun k c h => hc k c (List.mem_cons_of_mem _ h)) k2 c hm
+  · rename_i bs dv k cbs cdv cns sub r k' cbs' cdv' cns' sub' r' ih2 ih1
+    simp only [Bool.and_eq_true, beq_iff_eq] at h
+    obtain ⟨⟨⟨⟨⟨rfl, rfl⟩, rfl⟩, rfl⟩, h5⟩, h6⟩ := h
+    intro k2 c hm
+    simp only [List.mem_cons, Prod.mk.injEq] at hm
+    rcases hm with ⟨_, rfl⟩ | hm
+    · have hcc := hc k (.node cbs cdv cns sub) (by simp)
+      have hfc := hf k (.node cbs cdv cns sub) (by simp)
+      have hsub := ih2 h5 hcc.kid_fits hcc.kid_coh
+      exact ⟨⟨hfc.1, hfc.2⟩, Coherent.node _ _ _ _ hcc.names_len (fun k c h => (hsub k c h).1) (fun k c h => (hsub k c h).2)⟩
+    · exact ih1 h6 (fun k c h => hf k c (List.mem_cons_of_mem _ h)) (fun k c h => hc k c (List.mem_cons_of_mem _ h)) k2 c hm
+  · simp at h
+
+/-- a write into existing storage whose observed effect is inside the envelope keeps the node coherent (and its metadata) -/
+theorem writeM_spec (an : Bool) (obs t : M) (hc : Coherent t) : KeepsMeta t (writeM an obs t).1 := by
+  cases t with
+  | leaf s d => exact KeepsMeta.refl hc
+  | node bs dv ns kids =>
+    cases obs with
+    | leaf s d => exact KeepsMeta.refl hc
+    | node bs' dv' ns' kids' =>
+      simp only [writeM]
+      split
+      · rename_i h
+        simp only [Bool.and_eq_true] at h
+        have hk := growsK_sound an bs dv kids kids' h.2 hc.kid_fits hc.kid_coh
+        exact keepsMeta_node (Coherent.node _ _ _ _ hc.names_len (fun k c h => (hk k c h).1) (fun k c h => (hk k c h).2))
+      · exact KeepsMeta.refl hc
 
 
 end TdVerif.C01
